@@ -98,7 +98,27 @@ def run(ctx):
 
     # map_product: roles found by data flow, then two facts
     mem = model.lookup(cc, "map_product")
-    _map_product(ctx, model, mem)
+    try:
+        pwit = _judge_map_product(model, mem)
+    except AnalysisError as e:
+        pwit = None
+        ctx.extra["judge_unavailable:CoefficientCollector.map_product"] = str(e)
+    if pwit is not None:
+        ctx.ob("P0/CoefficientCollector/map_product/semantics", not pwit,
+               where(mem),
+               "map_product interpreted on 1..4 factors with given coefficient "
+               "tables: at most one factor may carry variables (else it "
+               "raises), and the result is that factor's table scaled by the "
+               "product of all the other factors' constants" if not pwit else
+               "CoefficientCollector.map_product: " + "; ".join(pwit[:2]))
+    mark_mp = len(ctx.obs)
+    try:
+        _map_product(ctx, model, mem)
+    except AnalysisError:
+        if pwit is None or pwit:
+            raise
+    if pwit is not None and not pwit:
+        ctx.withdraw_failures_since(mark_mp, "decided by interpreting map_product")
 
     # quotient / power guards
     # (path rule: a result is returned only after the stride dict of the
@@ -298,6 +318,89 @@ def _exact_divisions(ctx, model):
         ctx.ob(f"P/gaussian_elimination/exact-division:{nsrc}//{dsrc}", ok, loc,
                f"{nsrc} // {dsrc} is exact by construction" if ok else why)
     ctx.floor("floor divisions in gaussian_elimination", n, 4)
+
+
+def _judge_map_product(model, mem):
+    """interpretive judge (pv/absint.py).  -> witnesses"""
+    import itertools
+    from ..absint import Interp, Obj, Opaque, Poly, Raised, StepBound, module_env
+    fn = mem.node
+    cls = mem.owner
+
+    def resolve(c, nm):
+        if c == "collector":
+            m_ = model.lookup(cls, nm)
+            if m_ is not None and m_.kind == "func":
+                return ("func", m_.node)
+        return None
+    glob = module_env(cls.module.tree, {})
+    # coefficient tables of single factors: constant only / one variable / two
+    # variables with a constant term / no constant term
+    shapes = {
+        "k": lambda i: {1: Poly.sym(f"k{i}")},
+        "x": lambda i: {"x": Poly.sym(f"a{i}"), 1: Poly.sym(f"c{i}")},
+        "xy": lambda i: {"x": Poly.sym(f"a{i}"), "y": Poly.sym(f"b{i}")},
+        "y": lambda i: {"y": Poly.sym(f"b{i}")},
+    }
+    wit = []
+    n_cases = 0
+    for n in range(1, 5):
+        for combo in itertools.product(sorted(shapes), repeat=n):
+            if n == 4 and sum(1 for c in combo if c != "k") > 2:
+                continue
+            n_cases += 1
+            tables = [shapes[c](i) for i, c in enumerate(combo)]
+            kids = tuple(Opaque(f"child{i}") for i in range(n))
+            me = Obj("collector", {})
+            node = Obj("Product", {"children": kids})
+
+            def rec(it, n_, a, k, _t=tables):
+                w = getattr(a[0], "what", "")
+                if not w.startswith("child"):
+                    raise AnalysisError("map_product: rec of something that is "
+                                        "not a factor")
+                return dict(_t[int(w[5:])])
+            it = Interp(calls={"self.rec": rec}, resolve=resolve, globals_=glob,
+                        attrs=lambda it_, n_, b, at: Opaque(ast.unparse(n_)),
+                        max_steps=40000)
+            with_vars = [i for i, c in enumerate(combo) if c != "k"]
+            label = "factors with tables " + ", ".join(
+                "{" + ", ".join(f"{k_}: ." for k_ in t) + "}" for t in tables)
+            try:
+                got = it.call_function(fn, [me, node], dict(glob))
+            except Raised as r:
+                # a refusal is a raise statement; a failing assert (gone under
+                # -O) or a failed look-up further on is an accident
+                got = "raises" if isinstance(r.node, ast.Raise) else \
+                    f"fails with {r.exc or 'an error'} at line " \
+                    f"{getattr(r.node, 'lineno', '?')}"
+            except StepBound:
+                wit.append(f"{label}: does not terminate")
+                continue
+            if len(with_vars) > 1:
+                if got != "raises":
+                    wit.append(f"{label}: two factors carry variables (the "
+                               "product is not affine) and the product is not "
+                               "refused" + (f" ({got})" if isinstance(got, str)
+                                            else ""))
+                continue
+            if isinstance(got, str):
+                wit.append(f"{label}: {got} although at most one factor "
+                           "carries variables")
+                continue
+            scale = Poly.const(1)
+            for i, t in enumerate(tables):
+                if i not in with_vars:
+                    scale = scale * t[1]
+            base = tables[with_vars[0]] if with_vars else {1: Poly.const(1)}
+            want = {k_: scale * v for k_, v in base.items()}
+            if not isinstance(got, dict) or set(got) != set(want) or any(
+                    not isinstance(got[k_], (Poly, int)) or
+                    Poly.lift(got[k_]) != want[k_] for k_ in want):
+                wit.append(f"{label}: result {got!r}, expected {want!r}")
+    if n_cases < 50:
+        raise AnalysisError("map_product: too few cases")
+    return wit
 
 
 def _map_product(ctx, model, mem):
